@@ -152,3 +152,26 @@ CONFIG.level_note = ("Partial by nature: which pointer the C code releases on wh
                      "is modelled with an explicit heap. Trusted: Lean kernel + standard axioms; sanitizers and the executor's block accounting for "
                      "the runtime half.")
 
+
+def evidence_extra(ctx):
+    """how many fault experiments the sweeps of this run were (read back from the executor's output)"""
+    mid = os.path.join(ctx["work"], "c19.mid")
+    per_op, total, single, multi = {}, 0, 0, 0
+    for line in open(mid):
+        if " => " not in line or " |" not in line:
+            continue
+        inp, out = line.split(" => ", 1)
+        w = inp.split()
+        ents = out.split(" |", 1)[1].split()
+        per_op[w[2]] = per_op.get(w[2], 0) + len(ents)
+        total += len(ents)
+        if w[1].startswith("multi"):
+            multi += len(ents)
+        else:
+            single += len(ents)
+    return {"fault_experiments": total, "single_fault_experiments": single, "multi_fault_experiments": multi, "fault_experiments_per_operation": per_op,
+            "explanation": "every experiment is one run of a catalogue operation on a new context under one fault (or one random fault set), its repeat without "
+                           "faults, and the release of everything; `evaluations` counts sweeps (op lines), `fault_experiments` the runs under fault"}
+
+
+CONFIG.evidence_extra = evidence_extra
